@@ -325,7 +325,8 @@ class MuChannel:
         num_rx, num_tx = su_siso_channels.shape
         outputs = np.empty(num_rx, dtype=object)
 
-        if num_tx == 1 and signal.ndim == 1:
+        if (num_tx == 1 and isinstance(signal, np.ndarray)
+                and signal.ndim == 1):
             signal = np.reshape(signal, (1, -1))
 
         for rx in range(num_rx):
@@ -387,7 +388,8 @@ class MuChannel:
         num_rx, num_tx = su_siso_channels.shape
         outputs = np.empty(num_rx, dtype=object)
 
-        if num_tx == 1 and signal.ndim == 1:
+        if (num_tx == 1 and isinstance(signal, np.ndarray)
+                and signal.ndim == 1):
             signal = np.reshape(signal, (1, -1))
 
         for rx in range(num_rx):
